@@ -64,6 +64,8 @@ def _case(rng):
 def _case0(rng):
     kind = rng.choice(['split', 'split', 'indep', 'indep', 'bad'])
     spec = pfile.gen_file(rng, maxlen=5, minlen=1, scalar_prob=0.05)
+    if rng.random() < 0.3:
+        pfile.drop_fill_attrs(rng, spec)        # masked variables that declare no fill value (built from masked values)
     _inject_marker(rng, spec)
     names = [d[0] for d in spec['dims']]
     dim = rng.choice(names)
@@ -90,9 +92,14 @@ def _case0(rng):
     # independent files
     k = rng.randint(2, 4)
     files = []
+    unlim = {d[0]: d[2] for d in spec['dims']}[dim]
+    empty_first = unlim and rng.random() < 0.2      # a header / template file: no record yet on the unlimited stack dimension
+    late_mask = rng.random() < 0.25                 # nothing is missing in the first file, later files have missing cells
     for i in range(k):
         s2 = copy.deepcopy(spec)
         ln = rng.randint(1, 4)
+        if i == 0 and empty_first:
+            ln = 0
         for d in s2['dims']:
             if d[0] == dim:
                 d[1] = ln
@@ -101,13 +108,21 @@ def _case0(rng):
             size = int(np.prod([dl[x] for x in v['dims']])) if v['dims'] else 1
             if dim in v['dims'] or i == 0:
                 data = [10000 * (i + 1) + 100 * vi + t for t in range(size)]
-                if v['masked']:
+                if v['masked'] and size:
                     for t in rng.sample(range(size), rng.randint(0, max(1, size // 3))):
                         data[t] = None
                 v['data'] = data
             elif rng.random() < 0.3:
                 # a different value in a later file for a variable without the stack dimension
                 v['data'] = [77000 + t if x is not None else None for t, x in enumerate(v['data'])]
+        if i == 0 and late_mask:
+            for v in s2['vars']:
+                if v['masked'] and dim in v['dims'] and v['name'] != dim:
+                    v['masked'] = False
+                    v['data'] = [5550 + t if x is None else x for t, x in enumerate(v['data'])]
+                    v['attrs'] = [a for a in v['attrs'] if a != 'fill_value']
+                    v.pop('fill0', None)
+                    v['latemask'] = True
         _inject_marker(rng, s2, 0.2)
         if i > 0 and rng.random() < 0.5:
             s2['attrs'] = list(s2['attrs']) + ['later%d' % i]      # global attributes come from the first file
@@ -253,6 +268,17 @@ def _add_labels(case, fs):
             lv[:] = np.array(_piece_labels(case, i), dtype='S8')
 
 
+def _hidden(case):
+    return [v['name'] for v in _hide(case)['vars']]
+
+
+def _hide(case):
+    """pseudo spec for pfile.observe: variables whose fill_value attribute, if an operation adds one, only restates the mask
+    (built from masked values without a fill attribute; unmasked in the first file and masked later)"""
+    names = {v['name'] for s_ in case.get('files', []) for v in s_['vars'] if v.get('nofill') or v.get('latemask')}
+    return dict(vars=[dict(name=n, nofill=True) for n in sorted(names)])
+
+
 def _pop_labels(o):
     lo = o.variables.pop('LABELS', None)
     if lo is None:
@@ -272,12 +298,12 @@ def impl(case):
             o = fs[0].stack(fs[1:], case['dim'])
         if case.get('labels'):
             res['labels'] = _pop_labels(o)
-        res['obs'] = pfile.observe(o)
+        res['obs'] = pfile.observe(o, spec=_hide(case))
         if case['kind'] == 'split':
             # slicing the stacked file at each piece's extent gives the piece back
             back = []
             for a, b in zip(case['edges'][:-1], case['edges'][1:]):
-                back.append(pfile.observe(o.sliceDimensions(**{case['dim']: slice(a, b)})))
+                back.append(pfile.observe(o.sliceDimensions(**{case['dim']: slice(a, b)}), spec=_hide(case)))
             res['back'] = back
     except Exception as e:
         return dict(err=type(e).__name__, msg=str(e)[:100])
@@ -304,7 +330,7 @@ def impl(case):
                 f2.setCoords([v['name'] for v in s2['vars'] if v['name'] in dimnames])
             with lib.pnc_warnings():
                 o2 = stack_files(fs2, case['dim'])
-            res['legacy'] = pfile.observe(o2, with_unlim=False)
+            res['legacy'] = pfile.observe(o2, with_unlim=False, spec=_hide(case))
         except Exception as e:
             res['legacy_err'] = '%s: %s' % (type(e).__name__, str(e)[:80])
     return res
@@ -353,15 +379,15 @@ def _multifile(case):
         out = {}
         with lib.pnc_warnings():
             o1 = pnc.pncmfopen(args, format='specjson', stackdim=case['dim'])
-            out['mf1'] = pfile.observe(o1)
+            out['mf1'] = pfile.observe(o1, spec=_hide(case))
             o2 = cls.open_mfdataset(*args, stackdim=case['dim'])
-            out['mf2'] = pfile.observe(o2)
+            out['mf2'] = pfile.observe(o2, spec=_hide(case))
             # default stack dimension: the unlimited one, else a time-like name
             f0 = case['files'][order[0]]
             auto = [dm[0] for dm in f0['dims'] if dm[2]] or [dm[0] for dm in f0['dims'] if dm[0] in ('TSTEP', 'time', 'Time', 't')]
             if auto and auto[0] == case['dim']:
                 o3 = cls.open_mfdataset(*args)
-                out['mf3'] = pfile.observe(o3)
+                out['mf3'] = pfile.observe(o3, spec=_hide(case))
         return out
     finally:
         shutil.rmtree(d, True)
@@ -383,7 +409,7 @@ def agree(case, out, res):
         return None if out.startswith('err') else 'impl raised %s (%s), model %s' % (res['err'], res.get('msg'), out[:80])
     if not out.startswith('ok '):
         return 'model %s, impl returned' % out[:80]
-    d = pfile.diff_obs(out[3:], res['obs'])
+    d = pfile.diff_obs(out[3:], res['obs'], hide=_hidden(case))
     if d:
         return d
     if 'legacy' in res:
@@ -406,7 +432,7 @@ def agree(case, out, res):
             return 'model %s for the multi-file order %s' % (ref[:60], order)
         for k, nm in (('mf1', 'pncmfopen'), ('mf2', 'open_mfdataset'), ('mf3', 'open_mfdataset without stackdim')):
             if k in res:
-                d = pfile.diff_obs(ref[3:], res[k])
+                d = pfile.diff_obs(ref[3:], res[k], hide=_hidden(case))
                 if d:
                     return '%s(paths in order %s): %s' % (nm, order, d)
     return None
@@ -489,11 +515,11 @@ def _mf_oracle(case, res):
 
 def _core_oracle(case, res):
     if case['kind'] == 'split':
-        d = pfile.diff_obs(_expected_text(case['orig']), res['obs'])
+        d = pfile.diff_obs(_expected_text(case['orig']), res['obs'], hide=_hidden(case))
         if d:
             return 'stack(split(f)) differs from f: ' + d
         for i, (piece, back) in enumerate(zip(case['files'], res['back'])):
-            d = pfile.diff_obs(_expected_text(piece), back)
+            d = pfile.diff_obs(_expected_text(piece), back, hide=_hidden(case))
             if d:
                 return 'slicing the stacked file at piece %d does not give the piece back: %s' % (i, d)
         return None
